@@ -165,6 +165,7 @@ def prog_history(kit, actor, doc, elem, cfg):
     shape = cfg.get('shape') or rng.choice(SHAPES)
     nsteps = cfg.get('nsteps') or rng.randint(3, 14)
     wts = dict(add=6, add_bad=1.5, add_foreign=0.4, add_to_leaf=0.25, readd=0.5, remove_stale=0.25, weird=0.0, replace_raw=0.25,
+               add_attached=0.0,
                fwd=0.5, remove=2, replace=1, replace_other=0.4,
                dot_value=0.7, dot_element=0.6, dot_none=0.6, to_string=1.2, to_string_ic=0.5, check=0.5,
                check_ic=0.2, complete=0.8, read=0.6, attr=0.4, attr_bad=0.2, value_bad=0.2, remove_foreign=0.2,
@@ -316,6 +317,27 @@ def _one_random(kit, actor, doc, root, sub, wts, cfg):
             i = rng.randrange(len(node.children))
             yield {'op': 'REPLACE', 'a': actor, 'p': path, 'i': i, 'c': kit.childspec(node.children[i].name),
                    'by': 'pred' if rng.random() < 0.3 else 'ref'}
+    elif kind == 'add_attached':
+        # re-offer a child that is already attached, where the offer must fail: to its own parent with an impossible
+        # forward index, or to a checked element whose alphabet does not contain it
+        cands = [n for n in root.walk() if n.parent is not None]
+        if cands:
+            c = rng.choice(cands)
+            cp = w.path_of(c)
+            if rng.random() < 0.5:
+                pp = w.path_of(c.parent)
+                if pp and cp and c.parent.xsd_check:
+                    yield {'op': 'ADD', 'a': actor, 'p': pp, 'attached': cp, 'fwd': rng.choice([7, 9, 23]), 'c': {'name': c.name},
+                           'fault': 'rej.attached_child'}
+            else:
+                others = [n for n in root.walk() if n.xsd_check and n is not c and n is not c.parent and
+                          not any(x is c for x in w._ancestors(n)) and
+                          (spec.model_for_element(n.name) is None or c.name not in spec.model_for_element(n.name).alpha)]
+                if others and cp:
+                    t = rng.choice(others)
+                    tp = w.path_of(t)
+                    if tp:
+                        yield {'op': 'ADD', 'a': actor, 'p': tp, 'attached': cp, 'c': {'name': c.name}, 'fault': 'rej.attached_child'}
     elif kind == 'replace_raw':
         if node.children:
             yield {'op': 'REPLACE', 'a': actor, 'p': path, 'i': rng.randrange(len(node.children)),
@@ -380,7 +402,8 @@ def _one_random(kit, actor, doc, root, sub, wts, cfg):
             yield {'op': 'VALUE_SET', 'a': actor, 'p': path, 'value': rng.choice(b), 'fault': 'rej.bad_value'}
     elif kind == 'deep':
         # operate one level below: add a checked child with its own content, to be mutated later
-        comp = kit.compatible(node, [s for s in sub if spec.model_for_element(s) is not None]) if node.xsd_check else []
+        withmodel = [s for s in sub if spec.model_for_element(s) is not None]
+        comp = kit.compatible(node, withmodel) if node.xsd_check else withmodel
         if comp:
             yield {'op': 'ADD', 'a': actor, 'p': path, 'c': kit.childspec(rng.choice(comp), opaque=False)}
 
